@@ -5,9 +5,11 @@ package main
 
 import (
 	"bytes"
+	"encoding/hex"
 	"encoding/json"
 	"fmt"
 	"math"
+	"regexp"
 	"sort"
 	"strconv"
 	"strings"
@@ -26,6 +28,8 @@ func renderTagged(raw json.RawMessage, sb *strings.Builder) {
 		sb.WriteString("null")
 	case "n":
 		sb.WriteString(strconv.Itoa(dec[int](t[1])))
+	case "x": // a number literal, as written
+		sb.WriteString(dec[string](t[1]))
 	case "s":
 		b, _ := json.Marshal(dec[string](t[1]))
 		sb.Write(b)
@@ -108,7 +112,32 @@ func taggedOfBytes(b []byte) any {
 	if err := d.Decode(&v); err != nil {
 		return []any{"x", "invalid JSON: " + err.Error()}
 	}
+	if deeper(v, 60) {
+		// the observation reader of the model checker stops at 255 levels of nesting (a tagged value uses three per level)
+		return []any{"x", "nested deeper than 60 levels"}
+	}
 	return tagged(v)
+}
+
+func deeper(v any, n int) bool {
+	if n < 0 {
+		return true
+	}
+	switch v := v.(type) {
+	case []any:
+		for _, e := range v {
+			if deeper(e, n-1) {
+				return true
+			}
+		}
+	case map[string]any:
+		for _, e := range v {
+			if deeper(e, n-1) {
+				return true
+			}
+		}
+	}
+	return false
 }
 
 // untag converts tagged JSON to a generic Go value (for Feature.Properties).
@@ -227,7 +256,12 @@ func tokRings(flat []float64, ends []int, stride, off int) [][][]int {
 }
 
 // projGJ renders a geometry as the spec's [t, l, body] through the public accessors.
-func projGJ(g geom.T) map[string]any {
+func projGJ(g geom.T) map[string]any { return projGJDepth(g, 40) }
+
+func projGJDepth(g geom.T, depth int) map[string]any {
+	if depth < 0 {
+		return map[string]any{"t": "deep", "l": "No", "body": []any{}} // see taggedOfBytes
+	}
 	if g == nil {
 		return map[string]any{"t": "nil", "l": "No", "body": []any{}}
 	}
@@ -267,7 +301,7 @@ func projGJ(g geom.T) map[string]any {
 		p["l"] = "No"
 		b := []any{}
 		for _, m := range g.Geoms() {
-			b = append(b, projGJ(m))
+			b = append(b, projGJDepth(m, depth-1))
 		}
 		p["body"] = b
 	default:
@@ -283,7 +317,7 @@ func wfOf(g geom.T) []any {
 	return wfList(g)
 }
 
-func bboxProj(b *geom.Bounds) []int {
+func gjBBoxProj(b *geom.Bounds) []int {
 	if b == nil {
 		return []int{}
 	}
@@ -344,7 +378,7 @@ func featProj(f *geojson.Feature) any {
 	if f == nil {
 		return map[string]any{"nil": true}
 	}
-	return map[string]any{"id": f.ID, "bbox": bboxProj(f.BBox), "geom": projGJ(f.Geometry), "props": propsTagged(f.Properties)}
+	return map[string]any{"id": f.ID, "bbox": gjBBoxProj(f.BBox), "geom": projGJ(f.Geometry), "props": propsTagged(f.Properties)}
 }
 
 func errStr(err error) string {
@@ -358,6 +392,227 @@ func errStr(err error) string {
 	return s
 }
 
+// ---------------------------------------------------------------- number literals and ids, as written
+
+var jsonNumRe = regexp.MustCompile(`^(-?)(0|[1-9][0-9]*)(?:\.([0-9]+))?(?:[eE]([+-]?[0-9]+))?$`)
+
+// canonNum is the canonical spelling of the value a JSON number literal denotes: sign, the significant digits without
+// leading or trailing zeros, and the power of ten they are scaled by ("-125e-2"; zero is "0", without a sign). nd is the
+// number of significant digits, mag the position of the leading digit (value = 0.DIGITS x 10^mag). No arithmetic on the
+// value is done here: two literals denote the same number exactly when their canonical spellings are equal.
+func canonNum(lit string) (canon string, nd, mag int, ok bool) {
+	m := jsonNumRe.FindStringSubmatch(lit)
+	if m == nil {
+		return "", 0, 0, false
+	}
+	digits := m[2] + m[3]
+	e := -len(m[3])
+	if m[4] != "" {
+		x, err := strconv.Atoi(m[4])
+		if err != nil || x > 1000000 || x < -1000000 {
+			return "", 99, 1000000, false
+		}
+		e += x
+	}
+	digits = strings.TrimLeft(digits, "0")
+	for strings.HasSuffix(digits, "0") {
+		digits = digits[:len(digits)-1]
+		e++
+	}
+	if digits == "" {
+		return "0", 0, 0, true
+	}
+	sign := ""
+	if m[1] == "-" {
+		sign = "-"
+	}
+	return sign + digits + "e" + strconv.Itoa(e), len(digits), e + len(digits), true
+}
+
+// idRec describes the "id" member of a Feature object as an independent reader (encoding/json, generic tree) sees it.
+func idRec(obj map[string]any) map[string]any {
+	r := map[string]any{"k": "absent", "s": "", "num": "", "nd": 0, "mag": 0}
+	v, present := obj["id"]
+	if !present {
+		return r
+	}
+	lit := ""
+	switch v := v.(type) {
+	case nil:
+		r["k"] = "null"
+		return r
+	case string:
+		r["k"], r["s"] = "s", v
+		lit = v
+	case json.Number:
+		r["k"] = "n"
+		lit = string(v)
+	default:
+		r["k"] = "other"
+		return r
+	}
+	if c, nd, mag, ok := canonNum(lit); ok {
+		r["num"], r["nd"], r["mag"] = c, nd, mag
+	} else if r["k"] == "n" {
+		r["nd"], r["mag"] = 99, 1000000
+	}
+	return r
+}
+
+// idsOfBytes: the id of a Feature document, or of every member of a FeatureCollection document.
+func idsOfBytes(kind string, b []byte) []any {
+	out := []any{}
+	d := json.NewDecoder(bytes.NewReader(b))
+	d.UseNumber()
+	var v any
+	if err := d.Decode(&v); err != nil {
+		return out
+	}
+	obj, ok := v.(map[string]any)
+	if !ok {
+		return out
+	}
+	switch kind {
+	case "feature":
+		out = append(out, idRec(obj))
+	case "fc":
+		fs, _ := obj["features"].([]any)
+		for _, f := range fs {
+			if fo, ok := f.(map[string]any); ok {
+				out = append(out, idRec(fo))
+			} else {
+				out = append(out, map[string]any{"k": "other", "s": "", "num": "", "nd": 0, "mag": 0})
+			}
+		}
+	}
+	return out
+}
+
+func fcProj(fc *geojson.FeatureCollection) (any, []any) {
+	fs, wf := []any{}, []any{}
+	for _, f := range fc.Features {
+		fs = append(fs, featProj(f))
+		if f != nil {
+			wf = append(wf, wfOf(f.Geometry)...)
+		}
+	}
+	return map[string]any{"bbox": gjBBoxProj(fc.BBox), "features": fs}, wf
+}
+
+func printable(b []byte) string {
+	if len(b) > 300 {
+		b = b[:300]
+	}
+	return strings.ToValidUTF8(string(b), "?")
+}
+
+// gjRep describes a long repetitive input without spelling it out: pre x n, mid, post x n.
+type gjRep struct {
+	Pre, Mid, Post string
+	N              int
+}
+
+// decodeRuns feeds text to every decoding entry point of the package for the kind of document and records, per entry
+// point: error or result (projected through the public accessors), the flat representation of every geometry in the
+// result, and what the matching encoder makes of the result.
+func decodeRuns(kind string, text []byte) []any {
+	none := map[string]any{"t": "none", "l": "No", "body": []any{}}
+	runs := []any{}
+	run := func(api string, f func(o map[string]any)) {
+		o := map[string]any{"api": api, "ok": false, "err": "", "pan": "", "g": none, "f": "none", "wf": []any{},
+			"re": "", "rejson": []any{"x", "not encoded"}, "reid": []any{}}
+		if ev, msg := call(func() { f(o) }); ev != "ok" {
+			o["pan"] = msg
+			if msg == "" {
+				o["pan"] = "panic"
+			}
+		}
+		runs = append(runs, o)
+	}
+	reenc := func(o map[string]any, b []byte, err error) {
+		o["re"] = errStr(err)
+		if err == nil {
+			o["rejson"], o["reid"] = taggedOfBytes(b), idsOfBytes(kind, b)
+		}
+	}
+	switch kind {
+	case "geom":
+		run("Unmarshal", func(o map[string]any) {
+			var g geom.T
+			err := geojson.Unmarshal(text, &g)
+			o["err"] = errStr(err)
+			if err == nil {
+				o["ok"], o["g"], o["wf"] = true, projGJ(g), wfOf(g)
+				b, err2 := geojson.Marshal(g)
+				reenc(o, b, err2)
+			}
+		})
+		run("Geometry.Decode", func(o map[string]any) {
+			var gg *geojson.Geometry
+			err := json.Unmarshal(text, &gg)
+			var g geom.T
+			if err == nil {
+				g, err = gg.Decode()
+			}
+			o["err"] = errStr(err)
+			if err == nil {
+				o["ok"], o["g"], o["wf"] = true, projGJ(g), wfOf(g)
+				ge, err2 := geojson.Encode(g)
+				var b []byte
+				if err2 == nil {
+					b, err2 = json.Marshal(ge)
+				}
+				reenc(o, b, err2)
+			}
+		})
+	case "feature":
+		run("json.Unmarshal", func(o map[string]any) {
+			f := &geojson.Feature{}
+			err := json.Unmarshal(text, f)
+			o["err"] = errStr(err)
+			if err == nil {
+				o["ok"], o["f"], o["wf"] = true, featProj(f), wfOf(f.Geometry)
+				b, err2 := json.Marshal(f)
+				reenc(o, b, err2)
+			}
+		})
+		run("Feature.UnmarshalJSON", func(o map[string]any) {
+			f := &geojson.Feature{}
+			err := f.UnmarshalJSON(text)
+			o["err"] = errStr(err)
+			if err == nil {
+				o["ok"], o["f"], o["wf"] = true, featProj(f), wfOf(f.Geometry)
+				b, err2 := f.MarshalJSON()
+				reenc(o, b, err2)
+			}
+		})
+	case "fc":
+		run("json.Unmarshal", func(o map[string]any) {
+			fc := &geojson.FeatureCollection{}
+			err := json.Unmarshal(text, fc)
+			o["err"] = errStr(err)
+			if err == nil {
+				o["f"], o["wf"] = fcProj(fc)
+				o["ok"] = true
+				b, err2 := json.Marshal(fc)
+				reenc(o, b, err2)
+			}
+		})
+		run("FeatureCollection.UnmarshalJSON", func(o map[string]any) {
+			fc := &geojson.FeatureCollection{}
+			err := fc.UnmarshalJSON(text)
+			o["err"] = errStr(err)
+			if err == nil {
+				o["f"], o["wf"] = fcProj(fc)
+				o["ok"] = true
+				b, err2 := fc.MarshalJSON()
+				reenc(o, b, err2)
+			}
+		})
+	}
+	return runs
+}
+
 func geojsonHandler(raw json.RawMessage) map[string]any {
 	var c struct {
 		Fam  string
@@ -369,14 +624,18 @@ func geojsonHandler(raw json.RawMessage) map[string]any {
 			Features []gjFeat
 		}
 		Doc json.RawMessage
+		Hex *string
+		Rep *gjRep
 	}
 	must(json.Unmarshal(raw, &c))
 	out := map[string]any{"pan": ""}
 	none := map[string]any{"t": "none", "l": "No", "body": []any{}}
+	notEnc := []any{"x", "not encoded"}
 	switch c.Fam {
 	case "geom":
 		g := buildGJ(c.G)
-		out["json"], out["encerr"], out["back"], out["backerr"], out["wf"] = []any{"x", "not encoded"}, "", none, "", []any{}
+		out["json"], out["encerr"], out["back"], out["backerr"], out["wf"] = notEnc, "", none, "", []any{}
+		out["json2"], out["encerr2"], out["back2"], out["backerr2"], out["wf2"] = notEnc, "", none, "", []any{}
 		ev, msg := call(func() {
 			b, err := geojson.Marshal(g)
 			out["encerr"] = errStr(err)
@@ -394,8 +653,30 @@ func geojsonHandler(raw json.RawMessage) map[string]any {
 		if ev != "ok" {
 			out["pan"] = msg
 		}
+		// the same through Encode / (*Geometry).Decode
+		ev, msg = call(func() {
+			ge, err := geojson.Encode(g)
+			var b []byte
+			if err == nil {
+				b, err = json.Marshal(ge)
+			}
+			out["encerr2"] = errStr(err)
+			if err != nil {
+				return
+			}
+			out["json2"] = taggedOfBytes(b)
+			back, err := ge.Decode()
+			out["backerr2"] = errStr(err)
+			if err == nil {
+				out["back2"], out["wf2"] = projGJ(back), wfOf(back)
+			}
+		})
+		if ev != "ok" {
+			out["pan"] = "Encode/Decode: " + msg
+		}
 	case "feat":
-		out["json"], out["encerr"], out["back"], out["backerr"] = []any{"x", "not encoded"}, "", "none", ""
+		out["json"], out["encerr"], out["back"], out["backerr"] = notEnc, "", "none", ""
+		out["json2"], out["encerr2"], out["back2"], out["backerr2"] = notEnc, "", "none", ""
 		ev, msg := call(func() {
 			f := buildFeat(c.F)
 			b, err := json.Marshal(f)
@@ -414,14 +695,37 @@ func geojsonHandler(raw json.RawMessage) map[string]any {
 		if ev != "ok" {
 			out["pan"] = msg
 		}
+		// the same through the methods themselves
+		ev, msg = call(func() {
+			f := buildFeat(c.F)
+			b, err := f.MarshalJSON()
+			out["encerr2"] = errStr(err)
+			if err != nil {
+				return
+			}
+			out["json2"] = taggedOfBytes(b)
+			back := &geojson.Feature{}
+			err = back.UnmarshalJSON(b)
+			out["backerr2"] = errStr(err)
+			if err == nil {
+				out["back2"] = featProj(back)
+			}
+		})
+		if ev != "ok" {
+			out["pan"] = "MarshalJSON/UnmarshalJSON: " + msg
+		}
 	case "fc":
-		out["json"], out["encerr"], out["back"], out["backerr"] = []any{"x", "not encoded"}, "", "none", ""
-		ev, msg := call(func() {
+		out["json"], out["encerr"], out["back"], out["backerr"] = notEnc, "", "none", ""
+		out["json2"], out["encerr2"], out["back2"], out["backerr2"] = notEnc, "", "none", ""
+		build := func() *geojson.FeatureCollection {
 			fc := &geojson.FeatureCollection{BBox: bboxOf(c.Fc.Bbox)}
 			for _, f := range c.Fc.Features {
 				fc.Features = append(fc.Features, buildFeat(f))
 			}
-			b, err := json.Marshal(fc)
+			return fc
+		}
+		ev, msg := call(func() {
+			b, err := json.Marshal(build())
 			out["encerr"] = errStr(err)
 			if err != nil {
 				return
@@ -431,59 +735,57 @@ func geojsonHandler(raw json.RawMessage) map[string]any {
 			err = json.Unmarshal(b, back)
 			out["backerr"] = errStr(err)
 			if err == nil {
-				fs := []any{}
-				for _, f := range back.Features {
-					fs = append(fs, featProj(f))
-				}
-				out["back"] = map[string]any{"bbox": bboxProj(back.BBox), "features": fs}
+				out["back"], _ = fcProj(back)
 			}
 		})
 		if ev != "ok" {
 			out["pan"] = msg
 		}
-	case "dec":
-		var sb strings.Builder
-		renderTagged(c.Doc, &sb)
-		text := []byte(sb.String())
-		out["text"] = sb.String()
-		out["ok"], out["err"], out["g"], out["wf"], out["f"], out["re"] = false, "", none, []any{}, "none", ""
-		ev, msg := call(func() {
-			switch c.Kind {
-			case "geom":
-				var g geom.T
-				err := geojson.Unmarshal(text, &g)
-				out["err"] = errStr(err)
-				if err == nil {
-					out["ok"], out["g"], out["wf"] = true, projGJ(g), wfOf(g)
-					_, err2 := geojson.Marshal(g)
-					out["re"] = errStr(err2)
-				}
-			case "feature":
-				f := &geojson.Feature{}
-				err := json.Unmarshal(text, f)
-				out["err"] = errStr(err)
-				if err == nil {
-					out["ok"], out["f"], out["wf"] = true, featProj(f), wfOf(f.Geometry)
-					_, err2 := json.Marshal(f)
-					out["re"] = errStr(err2)
-				}
-			case "fc":
-				fc := &geojson.FeatureCollection{}
-				err := json.Unmarshal(text, fc)
-				out["err"] = errStr(err)
-				if err == nil {
-					fs := []any{}
-					for _, f := range fc.Features {
-						fs = append(fs, featProj(f))
-					}
-					out["ok"], out["f"] = true, map[string]any{"bbox": bboxProj(fc.BBox), "features": fs}
-					_, err2 := json.Marshal(fc)
-					out["re"] = errStr(err2)
-				}
+		ev, msg = call(func() {
+			b, err := build().MarshalJSON()
+			out["encerr2"] = errStr(err)
+			if err != nil {
+				return
+			}
+			out["json2"] = taggedOfBytes(b)
+			back := &geojson.FeatureCollection{}
+			err = back.UnmarshalJSON(b)
+			out["backerr2"] = errStr(err)
+			if err == nil {
+				out["back2"], _ = fcProj(back)
 			}
 		})
 		if ev != "ok" {
-			out["pan"] = msg
+			out["pan"] = "MarshalJSON/UnmarshalJSON: " + msg
+		}
+	case "dec":
+		var text []byte
+		switch {
+		case c.Rep != nil:
+			text = []byte(strings.Repeat(c.Rep.Pre, c.Rep.N) + c.Rep.Mid + strings.Repeat(c.Rep.Post, c.Rep.N))
+		case c.Hex != nil:
+			b, err := hex.DecodeString(*c.Hex)
+			must(err)
+			text = b
+		default:
+			var sb strings.Builder
+			renderTagged(c.Doc, &sb)
+			text = []byte(sb.String())
+		}
+		out["text"] = printable(text)
+		out["idin"] = idsOfBytes(c.Kind, text)
+		runs := decodeRuns(c.Kind, text)
+		out["runs"] = runs
+		// for the violation report: the first entry point's outcome
+		out["err"] = ""
+		for _, r := range runs {
+			m := r.(map[string]any)
+			if m["pan"] != "" {
+				out["pan"] = m["api"].(string) + ": " + m["pan"].(string)
+			}
+			if m["err"] != "" && out["err"] == "" {
+				out["err"] = m["err"]
+			}
 		}
 	}
 	return out
